@@ -4,7 +4,8 @@ HOOKS = {
     "guard": "--cfg winterfell_verif",
     "enable": "RUSTFLAGS='--cfg winterfell_verif' when building the harness (path deps on /repo crates); see lib/driver.py VARIANTS",
     "baseline_off_cmd": "cd /repo && cargo test --workspace --no-fail-fast --offline",
-    "source_commits": ["48bc805 verif hook: expose Rp62_248 permutation and MDS under cfg(winterfell_verif)"],
+    "source_commits": ["48bc805 verif hook: expose Rp62_248 permutation and MDS under cfg(winterfell_verif)",
+                       "2921bf0 verif hook: failpoints that switch off one verifier commitment check at a time"],
     "add_only": True,
 }
 
@@ -141,4 +142,19 @@ META["C25"] = dict(
          "their neighbours one step up each monotone axis and with the documented caps; the verifier's acceptable-options "
          "decision is compared with the estimate at the threshold and one bit either side, and with set membership.",
     note="No independent re-derivation of the soundness formulas: the property bounds and orders the estimates, it does not fix their values.",
+)
+META["C08"] = dict(
+    technique="completeness monitor over random FRI geometries / fields / hashers / query multisets, before and after proof serialization",
+    text="Thousands of (geometry, field, extension, hasher, polynomial degree, query multiset) combinations are proved and "
+         "verified through the standalone FRI API on the in-memory proof and on the re-decoded proof; any rejection or "
+         "panic inside the realisable-geometry predicate is a violation.",
+    note="Sampling. The geometry predicate was cross-checked against the prover on 10k combinations (DESIGN.md C08).",
+)
+META["C09"] = dict(
+    technique="adversarial transcript monitor: honest run + transcript replay + byte-level substitutions, each crafted forgery validated through a check-skipping failpoint",
+    text="The monitor replays the public coin to learn every alpha and folded position, then substitutes revealed layer rows "
+         "and remainders that are consistent with all algebraic checks at the queried points, so only the commitment "
+         "checks can reject them; with the failpoint hook it first shows that each forgery is accepted when exactly that "
+         "check is off. Non-low-degree data and understated bounds complete the negative side.",
+    note="Decides the property against these specific adversaries, not all adversaries. Hooks: winter_utils::verif failpoints.",
 )
